@@ -58,11 +58,33 @@ pub struct Prepared {
     pub encrypted: bool,
     pub compressed: bool,
     pub flush_marks: Vec<(usize, BTreeMap<String, usize>)>,
+    /// the independent decoder refuses the archive the writer produced
+    pub model_rejects: Option<String>,
 }
 
 pub fn prepare(p: &Program, k: &K) -> Result<Prepared, String> {
-    let b = drv::build(p, k, Sched::All)?;
-    let d = fmt::decode_archive(k, &b.raw, &b.sks).map_err(|e| format!("model cannot decode the archive: {e}"))?;
+    // (half of the archives get their file data from sources that return short reads)
+    let b = drv::build_with_sources(p, k, Sched::All, if p.seed % 2 == 0 { Sched::Max(4095) } else { Sched::All })?;
+    let d = match fmt::decode_archive(k, &b.raw, &b.sks) {
+        Ok(d) => d,
+        Err(e) => {
+            // the writer's output is not what FORMAT.md describes (reported to C01 by the caller): no
+            // model of the layout, so only the undamaged archive is repaired and judged against what
+            // was written (C05 (a)), without lower bounds
+            return Ok(Prepared {
+                header_len: fmt::dec_header(&b.raw).map_or(0, |h| h.len),
+                regions: vec![],
+                stream: None,
+                encrypted: p.layers & 1 != 0,
+                compressed: p.layers & 2 != 0,
+                raw: b.raw,
+                expected: b.expected,
+                sks: b.sks,
+                flush_marks: b.flush_marks,
+                model_rejects: Some(e),
+            });
+        }
+    };
     let regions = fmt::regions(k, &d, b.raw.len());
     let compressed = p.layers & 2 != 0;
     Ok(Prepared {
@@ -75,6 +97,7 @@ pub fn prepare(p: &Program, k: &K) -> Result<Prepared, String> {
         expected: b.expected,
         sks: b.sks,
         flush_marks: b.flush_marks,
+        model_rejects: None,
     })
 }
 
@@ -199,7 +222,9 @@ pub fn judge(pr: &Prepared, k: &K, n: usize, mode: Mode, res: &Result<Outcome, S
             if n < pr.header_len {
                 return v; // header incomplete: refusing is legal
             }
-            let cls = if e.starts_with("UNREADABLE-OUTPUT") {
+            let cls = if e.contains("HARNESS-OUTPUT-CAP") {
+                "repair-output-unbounded"
+            } else if e.starts_with("UNREADABLE-OUTPUT") {
                 "output-unreadable"
             } else if e.starts_with("failsafe open") {
                 "repair-refused"
@@ -273,7 +298,10 @@ pub fn judge(pr: &Prepared, k: &K, n: usize, mode: Mode, res: &Result<Outcome, S
 pub fn run_one(pr: &Prepared, n: usize, mode: Mode, rng: &mut Rng, sched: Sched) -> Result<Result<Outcome, String>, (String, String)> {
     guarded(|| {
         let src = drv::ThrottledSrc::new(&pr.raw[..n], sched);
-        drv::repair_and_read(src, &pr.sks, mode, rng).map(|(status, files)| Outcome { status, files })
+        // what repair writes is bounded by the content of the archive (framing included): 4x + 1 MiB is generous
+        let plain: usize = pr.expected.values().map(Vec::len).sum();
+        let cap = 4 * (pr.raw.len() + plain) + (1 << 20);
+        drv::repair_and_read_capped(src, &pr.sks, mode, rng, cap).map(|(status, files)| Outcome { status, files })
     })
 }
 
@@ -295,7 +323,13 @@ pub fn run_case(ctx: &mut Ctx, c: &Case, me: &str) {
             return;
         }
     };
-    let all = cut_list(&pr, &c.cuts);
+    let all = if let Some(e) = &pr.model_rejects {
+        ctx.count("prepare_failed");
+        ctx.violation("C01", "sweep-prepare-failed", json!({"case": {"prog": p}, "k": k.name()}), json!({"message": format!("model cannot decode the archive: {e}")}));
+        vec![pr.raw.len()]
+    } else {
+        cut_list(&pr, &c.cuts)
+    };
     let (si, sn) = c.seg;
     let per = all.len().div_ceil(sn.max(1));
     let lo = (si * per).saturating_sub(1); // overlap by one cut for monotonicity across segments
@@ -344,7 +378,17 @@ pub fn run_case(ctx: &mut Ctx, c: &Case, me: &str) {
             if reg == "footer" || reg == "sizes_footer" {
                 ctx.count("musthit:cut_inside_footer");
             }
-            let res = run_one(&pr, n, mode, &mut rng, Sched::All);
+            // the archive source may hand over fewer bytes than asked (pipe, socket ...): what is
+            // recovered from the same bytes must not depend on it, so the clauses are judged as is
+            let sched = match (n as u64).wrapping_add(p.seed) % 5 {
+                0 => Sched::Max(65536),
+                1 => Sched::Rand(70000, n as u64 ^ p.seed),
+                2 if n <= 400_000 => Sched::Cycle(7),
+                3 => Sched::Max(4095),
+                _ => Sched::All,
+            };
+            ctx.count(&format!("source_schedule:{}", match &sched { Sched::All => "whole", Sched::Max(_) => "max", Sched::Rand(..) => "rand", Sched::Cycle(_) => "cycle", _ => "other" }));
+            let res = run_one(&pr, n, mode, &mut rng, sched);
             let scen = |cuts: Vec<usize>| {
                 let l: Vec<CutAt> = cuts.iter().map(|n| describe_cut(&pr, *n)).collect();
                 json!({"case": {"prog": p, "cuts": CutSel::List(l), "seg": (0, 1)}, "k": k.name(), "facts": xlate::facts(p, &k), "concrete_cuts": cuts, "mode": mode})
